@@ -350,12 +350,13 @@ theorem roundtrip (env : Env P N V) (ps : List (Param V)) (dflt : String → V)
 /-- `loadParameters()` in any state of the module (any pending writes, any file content, with or without an I/O fault
 in the save it may trigger): every persistent parameter with a usable stored value ends with that value — or, if its
 write method refuses the value, keeps the one it had; entries that are unusable stop nothing.  Hypotheses: distinct
-parameter names, `json.load` dictionaries have distinct keys, a write method returns the value it was given. -/
+parameter names, `json.load` dictionaries have distinct keys, a write method hands back unchanged a value that an
+import produced (or refuses it). -/
 theorem reload_restores (env : Env P N V) (ms : MState N V) (file : Option Bytes) (fault : Option Fault)
     (held : String → List V)
     (hnames : (ms.params.map (·.name)).Nodup)
     (hkeys : ∀ b kv, env.parse b = some (.obj kv) → (kv.map Prod.fst).Nodup)
-    (hidem : ∀ n v v', env.wval n v = some v' → v' = v) :
+    (hidem : ∀ n j v v', env.imp n j = some v → env.wval n v = some v' → v' = v) :
     ReloadRestores env.parse env.imp env.wval file
       (ms.params.map (fun p => ⟨p.name, p.persistent, p.hasWrite, p.value, held p.name,
         (valueOf (loadParameters env ms file fault).ms.params p.name).getD p.value⟩)) := by
@@ -378,12 +379,13 @@ theorem reload_restores (env : Env P N V) (ms : MState N V) (file : Option Bytes
   cases hl : (loadEntries ms.params env.imp (loadRaw env.parse file)).lookup p.name with
   | none => trivial
   | some v =>
+    obtain ⟨j, _, hj⟩ := Option.bind_eq_some_iff.1 ((lookup_loaded ms.params env.imp _ hraw p hfind hpers).symm.trans hl)
     simp only [Option.map_some, Option.getD_some]
     cases hw : p.hasWrite
     · left; simp
     · cases hv : env.wval p.name v with
       | none => right; simp
-      | some v' => left; simp [hidem _ _ _ hv]
+      | some v' => left; simp [hidem _ _ _ _ hj hv]
 
 /-- `believed_on_disk` for the whole module machine: after start-up (from any file, with or without a fault in its
 save) and any history of `set` / `saveParameters` / `writeInitParams` / `loadParameters` / `factory_reset` actions, each
@@ -424,6 +426,25 @@ theorem startup_file_current (env : Env P N V) (htt : env.tgt ≠ env.tmp) (ps :
     · rw [hnr hr] at hraised; cases hraised
     · left; simp
 
+/-- `saved_when_done` for the whole module machine: in any state reached from start-up by any history (faults
+included), a `saveParameters()` that is not deferred (no write pending) and returns normally leaves a file that reads
+back as the current values of the persistent parameters (or as something Python-`==` to them: then it wrote nothing). -/
+theorem save_leaves_current_file (env : Env P N V) (htt : env.tgt ≠ env.tmp) (ps : List (Param V))
+    (wd0 : List (String × V)) (fs0 : FS P) (f0 f : Option Fault) (hist : List (Act V × Option Fault))
+    (hc : Codec env ps) :
+    let o := startUp env ps wd0 (fs0 env.tgt) f0
+    let w := World.run env ⟨o.ms, applyEvs fs0 o.evs⟩ hist
+    let s := act env w.ms (w.fs env.tgt) .save f
+    w.ms.writeDict = [] → s.raised = false →
+      loadRaw env.parse (applyEvs w.fs s.evs env.tgt) = exportAll env w.ms.params ∨
+      env.same (exportAll env w.ms.params) (loadRaw env.parse (applyEvs w.fs s.evs env.tgt)) = true := by
+  intro o w s hwd hraised
+  have hgood : Good env ps w.fs w.ms :=
+    world_run_good env ps htt hc hist _ (startUp_good env ps htt hc wd0 fs0 f0)
+  have hs : s = doSave env w.ms f := by simp [s, act, saveParameters, hwd]
+  rw [hs] at hraised ⊢
+  exact doSave_current env ps htt hc w.fs w.ms f hgood hraised
+
 /-- The reload that follows start-up directly (the first poll finds the hardware power-cycled).  Whatever the file of
 the earlier run held and whatever the configuration gives now, a start-up that returned normally followed by
 `loadParameters()` (with or without an I/O fault in the save it triggers) leaves every persistent parameter with the
@@ -435,7 +456,7 @@ theorem reload_after_startup_keeps_values (env : Env P N V) (htt : env.tgt ≠ e
     (wd0 : List (String × V)) (fs0 : FS P) (f0 f1 : Option Fault)
     (hnames : (ps.map (·.name)).Nodup) (hc : Codec env ps)
     (hkeys : ∀ b kv, env.parse b = some (.obj kv) → (kv.map Prod.fst).Nodup)
-    (hidem : ∀ n v v', env.wval n v = some v' → v' = v)
+    (hidem : ∀ n j v v', env.imp n j = some v → env.wval n v = some v' → v' = v)
     (hsame : ∀ d d', env.same d d' = true → ∀ n, (d'.lookup n).bind (env.imp n) = (d.lookup n).bind (env.imp n)) :
     let o := startUp env ps wd0 (fs0 env.tgt) f0
     let disk := applyEvs fs0 o.evs
@@ -467,7 +488,7 @@ theorem reload_after_startup_keeps_values (env : Env P N V) (htt : env.tgt ≠ e
     · simp
     · cases hv : env.wval p.name p.value with
       | none => simp
-      | some v' => simp [hidem _ _ _ hv]
+      | some v' => simp [hidem _ _ _ _ (hlaw p hp hpers) hv]
   refine ⟨hmain, ?_⟩
   intro ob hob hpers
   obtain ⟨p, hp, rfl⟩ := List.mem_map.1 hob
@@ -486,7 +507,7 @@ theorem reload_from_this_run (env : Env P N V) (htt : env.tgt ≠ env.tmp) (ps :
     (wd0 : List (String × V)) (fs0 : FS P) (f0 f1 : Option Fault) (hist : List (Act V × Option Fault))
     (hnames : (ps.map (·.name)).Nodup) (hc : Codec env ps)
     (hkeys : ∀ b kv, env.parse b = some (.obj kv) → (kv.map Prod.fst).Nodup)
-    (hidem : ∀ n v v', env.wval n v = some v' → v' = v)
+    (hidem : ∀ n j v v', env.imp n j = some v → env.wval n v = some v' → v' = v)
     (hlaw : ∀ n v, env.imp n (env.exp n v) = some v)
     (hsame : ∀ d d', env.same d d' = true → ∀ n, (d'.lookup n).bind (env.imp n) = (d.lookup n).bind (env.imp n)) :
     let o := startUp env ps wd0 (fs0 env.tgt) f0
@@ -546,7 +567,9 @@ theorem reload_from_this_run (env : Env P N V) (htt : env.tgt ≠ env.tmp) (ps :
   · simp only [Bool.false_eq_true, if_false, Option.getD_some]; exact hHv
   · cases hwv : env.wval p.name v with
     | none => simp only [if_true, Option.getD_none]; exact hcur
-    | some v' => simp only [if_true, Option.getD_some, hidem _ _ _ hwv]; exact hHv
+    | some v' =>
+      obtain ⟨j, _, hj⟩ := Option.bind_eq_some_iff.1 hv
+      simp only [if_true, Option.getD_some, hidem _ _ _ _ hj hwv]; exact hHv
 
 end loading
 
@@ -682,6 +705,23 @@ example (hist : List (Act Nat × Option Fault)) (f1 : Option Fault) :
   intro fs0 o w0
   exact ⟨reload_from_this_run exEnv exLaws.1 exParams [("a", 5)] fs0 none f1 hist exLaws.2.1 exCodec exLaws.2.2.1
     exLaws.2.2.2.1 exLaws.2.2.2.2.2 exLaws.2.2.2.2.1 (by decide +kernel), by decide +kernel, by decide +kernel⟩
+
+/-- `save_leaves_current_file` in that scenario: after `writeInitParams` and a change of "a" to 9, the save writes
+the file that reads back 9 -/
+example :
+    let fs0 : FS Nat := fun p => if p = 0 then some [1, 1, 1] else none
+    let o := startUp exEnv exParams [("a", 5)] (fs0 exEnv.tgt) none
+    let w := World.run exEnv ⟨o.ms, applyEvs fs0 o.evs⟩ [(.writeInit, none), (.set "a" 9, none)]
+    let s := act exEnv w.ms (w.fs exEnv.tgt) .save none
+    w.ms.writeDict = [] ∧ s.raised = false ∧ s.evs.length = 5 ∧
+      loadRaw exEnv.parse (applyEvs w.fs s.evs exEnv.tgt) = exportAll exEnv w.ms.params := by
+  refine ⟨by decide +kernel, by decide +kernel, by decide +kernel, ?_⟩
+  have h := save_leaves_current_file exEnv exLaws.1 exParams [("a", 5)]
+    (fun p => if p = 0 then some [1, 1, 1] else none) none none [(.writeInit, none), (.set "a" 9, none)] exCodec
+    (by decide +kernel) (by decide +kernel)
+  rcases h with h | h
+  · exact h
+  · simp [exEnv] at h
 
 /-- … and `reload_restores` / `believed_on_disk_world` applied to them -/
 example (held : String → List Nat) (hist : List (Act Nat × Option Fault)) (fs0 : FS Nat) :
